@@ -118,10 +118,25 @@ def die_with_parent():
         pass
 
 
+def _watch_parent():
+    """Belt and braces: a thread in every worker that ends the worker when its parent is gone (re-parented to init / a reaper)."""
+    import threading
+    parent = os.getppid()
+
+    def loop():
+        while True:
+            time.sleep(2.0)
+            if os.getppid() != parent:
+                os._exit(3)
+    t = threading.Thread(target=loop, daemon=True)
+    t.start()
+
+
 def _pin():
     """Pin each worker to one core: the virtual threads of an execution hand a baton to each other and never run in
     parallel, so keeping them on one core avoids cross-core wake-ups."""
     die_with_parent()
+    _watch_parent()
     try:
         cpus = sorted(os.sched_getaffinity(0))
         ident = mp.current_process()._identity
